@@ -133,6 +133,10 @@ def r1_reject_before_model(ctx):
         st = enclosing_stmt(cons[0])
         sok = isinstance(st, (ast.Assign, ast.AnnAssign)) and any(dotted(t) == "self._readout_properties" for t in (st.targets if isinstance(st, ast.Assign) else [st.target]))
         ctx.check(sok, f"{DET}.set_readout#store", "stored in self._readout_properties" if sok else "the validated ReadoutProperties is not stored", where=sr, node=st)
+        from sa.paths import enumerate_paths
+
+        bare = [q for q in enumerate_paths(sr.node.body) if q.exit in ("fall", "return") and not q.stores("self._readout_properties")]
+        ctx.check(not bare, f"{DET}.set_readout#every-call", "every call that returns has installed a freshly validated ReadoutProperties" if not bare else f"set_readout returns without installing the given schedule when {bare[0].cond_texts()} (the previous run's schedule and readout mode stay in force)", where=sr, node=bare[0].exit_node if bare and bare[0].exit_node is not None else sr.node)
         for p in ("times", "start_time", "non_destructive"):
             v = kw(cons[0], p)
             vok = v is not None and dotted(v) == p
